@@ -549,6 +549,34 @@ theorem C14_nbsp_witness :
     inK s [] = false ∧ validate s = .ok ∧ refsChecked strWorld s [] = [] := by
   decide +kernel
 
+/-- a dollar-quote tag with a non-ASCII letter: a dollar-quoted string for DuckDB, not for `dollarQuoteTag`
+(ASCII letters only) - the replacement scan stays unmasked and no scanner recognises it -/
+theorem C14_dollar_nonascii_tag_witness :
+    let s := "SELECT canary FROM $é$/r/secret/cpu/2024/01/01/00/part0.parquet$é$".toList
+    inK s [] = false ∧ validate s = .ok ∧ refsChecked strWorld s [] = [] ∧
+    (maskLits s).2.length = 0 := by
+  decide +kernel
+
+/-- while every ASCII tag (letters, digits after the first byte, underscore) IS masked as one string -/
+theorem C14_dollar_tag_masked :
+    ["", "t", "t1", "_9", "T0", "a2b", "a_1"].all (fun tg =>
+      validate ("SELECT canary FROM $".toList ++ tg.toList ++ "$/r/secret/cpu/f.parquet$".toList ++ tg.toList ++ "$".toList)
+        == .strtab) = true := by
+  decide +kernel
+
+/-- `getTransformedSQL` cache key: `sql` without header, `headerDB + ":" + sql` with one -/
+def cacheKey (hdr sql : Str) : Str := if hdr = [] then sql else hdr ++ ':' :: sql
+
+/-- the two keys collide: the header-less text "secret:<q>" addresses the entry primed by (header secret, q),
+while the permission side extracts its references from the text (database `default`) -/
+theorem C14_cache_key_collision_witness :
+    let q := "SELECT canary FROM cpu LIMIT 7".toList
+    cacheKey [] ("secret:".toList ++ q) = cacheKey "secret".toList q ∧
+    validate ("secret:".toList ++ q) = .ok ∧
+    refsChecked strWorld ("secret:".toList ++ q) [] = [⟨"default".toList, "cpu".toList⟩] ∧
+    refsChecked strWorld q "secret".toList = [⟨"secret".toList, "cpu".toList⟩] := by
+  decide +kernel
+
 /-! ## composition -/
 
 /-- **C14_partial** (the property on the decidable lexical class `inK`, compositional).
